@@ -206,3 +206,72 @@ pub fn overlay_mark_committed(o: &Overlay) {
 
 /// The real `BeatreeIterator` (staging maps merged with on-disk leaves) over hand-built leaves.
 pub use crate::beatree::iterator::verif::{run_iterator as beatree_run_iterator, LeafSpec};
+
+/// The bit operations of the B-tree (`beatree/ops/bit_ops.rs`), exposed unchanged: key separation,
+/// prefix / separator lengths, key reconstruction from a (prefix, misaligned separator) pair and the
+/// chunked bit copy they are built on.
+pub mod bit_ops {
+    pub use crate::beatree::ops::bit_ops::verif::{first_chunk_mask, last_chunk_mask};
+    pub use crate::beatree::ops::bit_ops::{
+        bitwise_memcpy, prefix_len, reconstruct_key, separate, separator_len,
+    };
+}
+
+/// Branch nodes (`beatree/branch/node.rs`) on caller-supplied page contents: the read path `get_key` and the
+/// builder (`BranchNodeBuilder::new`, `push`, `push_chunk`) driven step by step.
+pub mod branch_node {
+    use crate::beatree::{
+        branch::node::{get_key as real_get_key, BranchNode, BranchNodeBuilder},
+        PageNumber,
+    };
+    use crate::io::PagePool;
+
+    fn node_from(page_pool: &PagePool, page: &[u8]) -> BranchNode {
+        let mut node = BranchNode::new_in(page_pool);
+        node.as_mut_slice().copy_from_slice(page);
+        node
+    }
+
+    /// `get_key(node, index)` on the given 4096-byte page.
+    pub fn get_key(page: &[u8], index: usize) -> [u8; 32] {
+        let pool = PagePool::new();
+        let node = node_from(&pool, page);
+        real_get_key(&node, index)
+    }
+
+    /// One builder call.
+    pub enum Step {
+        /// `push(key, separator_len, pn)`
+        Push([u8; 32], usize, u32),
+        /// `push_chunk(base, from, to, updated)`
+        Chunk { from: usize, to: usize, updated: Vec<(usize, u32)> },
+    }
+
+    /// `BranchNodeBuilder::new(node, n, prefix_compressed, prefix_len)` on a node whose page holds `initial`
+    /// (the page pool hands out pages with undefined contents), then the steps, then `finish`: the page bytes.
+    pub fn build(
+        initial: &[u8],
+        n: usize,
+        prefix_compressed: usize,
+        prefix_len: usize,
+        base: Option<&[u8]>,
+        steps: &[Step],
+    ) -> Vec<u8> {
+        let pool = PagePool::new();
+        let node = node_from(&pool, initial);
+        let base = base.map(|b| node_from(&pool, b));
+        let mut builder = BranchNodeBuilder::new(node, n, prefix_compressed, prefix_len);
+        for step in steps {
+            match step {
+                Step::Push(key, len, pn) => builder.push(*key, *len, *pn),
+                Step::Chunk { from, to, updated } => builder.push_chunk(
+                    base.as_ref().expect("push_chunk needs a base"),
+                    *from,
+                    *to,
+                    updated.iter().map(|(i, pn)| (*i, PageNumber(*pn))),
+                ),
+            }
+        }
+        builder.finish().as_slice().to_vec()
+    }
+}
